@@ -27,6 +27,7 @@ static Dgram make_dgram(int d, long n, long scale, const std::string& mode, vh::
     g.id = mode == "distinct_id" ? (uint16_t)(0x1000 + d) : 0x4242;
     if (mode == "reverse") { g.src = d == 1 ? "10.1.1.1" : "10.1.1.2"; g.dst = d == 1 ? "10.1.1.2" : "10.1.1.1"; }
     else if (mode == "distinct_pair") { g.src = d == 1 ? "10.1.1.1" : "10.1.1.3"; g.dst = "10.1.1.2"; }
+    else if (mode == "same_key") { g.src = "10.1.1.1"; g.dst = "10.1.1.2"; }      // both datagrams use one identification and address pair: the second REUSES the key after the first is complete
     else if (mode == "mixed") {
         // several concurrent datagrams whose identifications and address pairs are drawn from small sets independently (distinct
         // triples): any order relation between the keys' components occurs
